@@ -276,16 +276,19 @@ impl LocalNode {
     ///
     /// Returns the generation (with tag).
     pub(crate) fn new_helping(&self, ptr: usize) -> usize {
+        if self.helping.wraps_next() {
+            // Too many generations happened, make sure the writers give the poor node a break for
+            // a while so they don't observe the generation wrapping around. We are in between
+            // transactions now, so the node can be handed over and we continue on another one
+            // (or the same one, once no writer is poking in it).
+            if let Some(node) = self.node.take() {
+                node.start_cooldown();
+            }
+            self.node.set(Some(Node::get()));
+        }
         let node = &self.node.get().expect("LocalNode::with ensures it is set");
         debug_assert_eq!(node.in_use.load(Relaxed), NODE_USED);
-        let (gen, discard) = node.helping.get_debt(ptr, &self.helping);
-        if discard {
-            // Too many generations happened, make sure the writers give the poor node a break for
-            // a while so they don't observe the generation wrapping around.
-            node.start_cooldown();
-            self.node.take();
-        }
-        gen
+        node.helping.get_debt(ptr, &self.helping)
     }
 
     /// Confirm the helping transaction.
